@@ -14,6 +14,7 @@ from collections import OrderedDict as odict
 from vf.gen import rb as G
 from vf.ref import device as D
 from vf.ref import rulebook as RB
+from vf.ref import rulelang as R
 from vf.util import plain, unplain
 
 LEVEL = "exploration"
@@ -31,7 +32,7 @@ ASSUMPTIONS = [
     "Junos-like vendors (juniper, ribbon, nokia): flattened set/delete statements are segmented into rows by the rulebook (block rows have a fixed word count, no catch-alls, no %rewrite, no negated-form rules there); `set` creates missing blocks, `delete` inside a missing block is a no-op",
     "the RouterOS formatter is not simulated here",
 ]
-FLOORS = {"quick": {"patches_executed": 3000, "commands_executed": 5000, "removals_executed": 500, "second_diffs_empty": 3000, "flat_patches_executed": 800, "flat_commands_executed": 2000, "overlapping_rule_cases": 50, "undo_redo_block_cases": 50, "model_chain_patches_executed": 45, "ignore_changes_block_cases": 50, "ordered_rewrite_body_cases": 25, "rulebooks_with_an_ignore_case_rule_beside_case_sensitive_ones": 150},
+FLOORS = {"quick": {"patches_executed": 3000, "commands_executed": 5000, "removals_executed": 500, "second_diffs_empty": 3000, "flat_patches_executed": 800, "flat_commands_executed": 2000, "overlapping_rule_cases": 50, "undo_redo_block_cases": 50, "model_chain_patches_executed": 45, "ignore_changes_block_cases": 50, "ordered_rewrite_body_cases": 25, "rulebooks_with_an_ignore_case_rule_beside_case_sensitive_ones": 150, "rulebooks_with_global_rules_on_two_levels": 60, "ordered_rules_that_also_name_a_logic": 100},
           "thorough": {"patches_executed": 100000, "commands_executed": 200000, "removals_executed": 20000, "second_diffs_empty": 100000, "flat_patches_executed": 30000, "flat_commands_executed": 80000, "overlapping_rule_cases": 2000, "undo_redo_block_cases": 2000, "model_chain_patches_executed": 300, "ignore_changes_block_cases": 2000, "ordered_rewrite_body_cases": 1000}}
 BLOCK_VENDORS = ["huawei", "h3c", "optixtrans", "cisco", "nexus", "iosxr", "arista", "aruba", "b4com", "pc"]
 FLAT_VENDORS = {"juniper": {"set"}, "ribbon": {"set"}, "nokia": {"/configure"}}
@@ -223,6 +224,21 @@ def step(vname, rules, text, rb, old, new, acc, ctx):
     return dev_tree
 
 
+def RB_walk(level):
+    for r in level:
+        yield r
+        yield from RB_walk(r.children)
+
+
+def unsow(tree):
+    out = odict()
+    for row, ch in tree.items():
+        if row.startswith("gd "):
+            continue
+        out[row] = unsow(ch) if ch else odict()
+    return out
+
+
 def reorder_only(rng, tree):
     out = odict()
     items = list(tree.items())
@@ -248,6 +264,40 @@ def run_case(case, acc):
         rules = G.gen_rulebook(rng, depth=3, prefix=prefix, allow=FLAT_ALLOW + extra)
     else:
         rules = G.gen_rulebook(rng, depth=3, prefix=prefix, allow=G.DEFAULT_ALLOW + extra)
+    gn_host = None
+    if case.get("gnest") and vname not in FLAT_VENDORS:
+        # %global rules on two nesting levels: an outer `gd ~ %global` at the top and, inside a block rule, an inner `gs * %global` of its own;
+        # rows of the outer family live inside that block (and below): the inner definition does not end the outer one
+        grng = random.Random(case["seed"] ^ 0x6E57)
+        hosts = [r for r in rules if r.children and not r.glob and not r.ignore and not r.ordered and not r.rewrite and r.logic is None]
+        if hosts:
+            gn_host = grng.choice(hosts)
+            rules.append(RB.Rule("gd ~", glob=True))
+            gn_host.children.append(RB.Rule("gs *", glob=True))
+            acc.count("rulebooks_with_global_rules_on_two_levels")
+
+    def sow(tree, top=True):
+        if gn_host is None:
+            return tree
+        out = odict()
+        for row, ch in tree.items():
+            ch = sow(ch, False) if ch else odict()
+            if (not top or R.match(gn_host.pat, row) is not None) and not row.startswith(("gd ", "gs ")) and (ch or top) and sow_rng.random() < 0.7:
+                ch = odict(ch)
+                ch["gd k%d x%d" % (sow_rng.randint(1, 3), sow_rng.randint(1, 2))] = odict()
+            out[row] = ch
+        return out
+    sow_rng = random.Random(case["seed"] ^ 0x50E)
+    if case.get("ordlogic"):
+        # an %ordered rule that also names a %logic: the list is still an ordered list (removal and re-creation in order), whatever the logic says
+        orng = random.Random(case["seed"] ^ 0x0D10)
+        n_ = 0
+        for r in RB_walk(rules):
+            if r.ordered and not r.rewrite and "%logic" not in r.extra and orng.random() < 0.8:
+                r.extra = (r.extra + " %logic=" + orng.choice(["common.undo_redo", "common.permanent"])).strip()
+                n_ += 1
+        if n_:
+            acc.count("ordered_rules_that_also_name_a_logic", n_)
     ic_words = set()
     if case.get("mixcase"):
         # one leaf rule per level may be %ignore_case (its own rows stay lower-case on both sides); the rows of its case-sensitive
@@ -298,7 +348,7 @@ def run_case(case, acc):
             host.children.append(RB.Rule("q1 *", ordered=True, children=[RB.Rule("~", glob=True, rewrite=True)]))
             text = RB.render(rules)
             rb = compile_rb(text, vname)
-    old = mixcase(G.gen_tree(rng, rules))
+    old = sow(mixcase(G.gen_tree(rng, rules)))
     if G.has_feature(rules, FEATURES["overlap"]):
         acc.count("overlapping_rule_cases")
     if G.has_feature(rules, FEATURES["undo_redo_block"]):
@@ -315,7 +365,7 @@ def run_case(case, acc):
             new = G.mutate_tree(rng, lowcase(old), rules)  # (keys are compared in the generator's own lower-case spelling)
         else:
             new = G.gen_tree(rng, rules)
-        new = mixcase(new)
+        new = sow(unsow(mixcase(new)))
         after = step(vname, rules, text, rb, old, new, acc, {"case": case, "step": i})
         if after is None:
             return
@@ -515,6 +565,10 @@ def run_shard(spec, acc):
             case["ordrw"] = case["icblocks"] = True
         if j % 4 == 0:
             case["mixcase"] = True
+        if j % 8 == 5:
+            case["gnest"] = True
+        if j % 8 == 6 or j % 8 == 2:
+            case["ordlogic"] = True
         run_case(case, acc)
     flat = sorted(FLAT_VENDORS)
     for j in range((total // 3) // n):
